@@ -21,6 +21,9 @@ def run(ctx):
         cases += cs[::stride]
     # multi-file programs: what is linked into the script (functions of imported files, their top-level code) obeys the same structural rules
     cases += [c for c in ctx.tlc_family("FamC09", constants={"Tier": '"quick"'}, timeout=3000) if "/neg/" not in c["id"] and "/libneg/" not in c["id"]][::(2 if quick else 1)]
+    import progflow
+    pairs = sorted(progflow.pair_cases(ctx), key=lambda c: c["id"])
+    cases += pairs[::(4 if quick else 1)]
     ctx.exhaustive["FamC16"] = True
     wd = ctx.sub("emit")
     p0, p1 = os.path.join(wd, "c0.ndjson"), os.path.join(wd, "c1.ndjson")
@@ -45,7 +48,7 @@ def run(ctx):
         traced.append(c)
     p2 = os.path.join(wd, "cases.ndjson")
     write_ndjson(p2, [{"id": c["id"], "events": c["events"]} for c in traced])
-    verd, _ = ctx.tlc("Emit", workdir=ctx.sub("tlc-emit"), files=[(p2, "cases.ndjson")], timeout=3000)
+    verd, _ = ctx.tlc("Emit", workdir=ctx.sub("tlc-emit"), files=[(p2, "cases.ndjson")], timeout=3000, cover=[("Emit", "Event")])
     by = {v["id"]: v for v in verd}
     for c in traced:
         v = by.get(c["id"])
